@@ -129,6 +129,10 @@ def canon_events(trace, ref=False):
                 out.append(("store", name, canon(val)))
             elif ref or (_mentions_user(base) and not isinstance(base, (DictV, ListV))):
                 out.append(("setitem", canon(base), canon(idx), canon(val)))
+        elif k == "getitem":
+            base, idx = e[1], e[2]
+            if ref or (_mentions_user(base) and not isinstance(base, (DictV, ListV))):
+                out.append(("getitem", canon(base), canon(idx)))
         elif k == "delitem":
             base, idx = e[1], e[2]
             if _is_symtab(base):
